@@ -361,11 +361,21 @@ pub fn arg_perm(s: &str) -> PermArg {
         (0, s)
     };
     let bits = if !body.is_empty() && body.chars().all(|c| ('0'..='7').contains(&c)) {
-        if body.len() > 4 {
-            return PermArg::Unspecified("octal mode of five or more digits".into());
-        }
-        if body.len() < 3 {
-            return PermArg::Unspecified("octal mode of fewer than three digits".into());
+        if body.len() > 4 || body.len() < 3 {
+            // whether a spelling of 1-2 or of 5+ digits is a member is not documented (find(1) accepts
+            // both, the project's grammar asks for 3-4): it may be refused. What C08 does fix is that an
+            // accepted octal argument "denotes exactly the bits of its octal value": a value above 07777
+            // has bits the twelve-bit mode cannot carry, so it can only be refused (as find(1) does).
+            let v = u128::from_str_radix(body, 8).unwrap_or(u128::MAX);
+            if v > 0o7777 {
+                return PermArg::NotMember;
+            }
+            let p = Permission(Mode::from_bits(v as u32).unwrap());
+            return PermArg::OkIfAccepted(match kind {
+                0 => PermCheck::Equal(p),
+                1 => PermCheck::AtLeast(p),
+                _ => PermCheck::Any(p),
+            });
         }
         u32::from_str_radix(body, 8).unwrap()
     } else {
